@@ -69,6 +69,10 @@ SET_DOCS = [
     # a genuine (not injected) failure inside the dump call: ruamel raises TypeError for a tagged integer after the
     # target was truncated.  Recorded and validated as the run's single fault; judged like any other run.
     ("natural:tagged-int", "t.yaml", "a: 1\nb: 2\n", ["-g", "a", "-a", "1", "--tag=!mine"], False),
+    # yaml-set's JSON save path has a different shape from yaml-merge: jsonify_yaml_data and json.dump run inside the
+    # with open(..., 'w') block (yaml_set.py:315-322), so an unrepresentable result is detected while writing
+    ("natural:json-datekey", "t.json", "2020-01-01: x\na: 1\n", ["-g", "a", "-a", "2"], True),
+    ("natural:json-seqkey-flow", "t.yaml", "{? [a, b] : v, a: 1}\n", ["-g", "a", "-a", "2"], True),
 ]
 SET_CAUSES = [
     # cause, label, text (None = scenario document), arguments, stderr pattern
@@ -106,6 +110,23 @@ MERGE_CAUSES = [
     ("unreadable", "missing-rhs", MERGE_LHS, {}, ["{d}/nofile.yaml"], [], r"Not a file"),
     ("unreadable", "bad-lhs", "a: [1\nb: }\n", {}, [], [], r"YAML (parsing|syntax) error"),
 ]
+
+
+DATEKEY = "2020-01-01: x\na: 1\nl: [1]\n"
+SEQKEY = "? [a, b]\n: v\nk: 1\n"
+PLAIN_LHS = "a: 1\nl: [1]\n"
+UNREP = [
+    # label, lhs name, lhs text, rhs text (None = single input), extra arguments, --output name
+    # JSON output (forced with -D json / implied by a .json name / implied by a flow-style first input) of a result
+    # holding a Hash key that JSON cannot express: Merger.prepare_for_dump fails before the output file is opened
+    ("unrep-datekey-Djson", "l.yaml", DATEKEY, "z: 1\n", ["-D", "json"], "out.yaml"),
+    ("unrep-seqkey-Djson", "l.yaml", SEQKEY, "z: 1\n", ["-D", "json"], "out.yaml"),
+    ("unrep-datekey-dotjson", "l.json", DATEKEY, "z: 1\n", [], "out.json"),
+    ("unrep-seqkey-flowinput", "l.conf", "{? [a, b] : v, k: 1}\n", "{z: 1}\n", [], "out.conf"),
+    ("unrep-from-rhs", "l.yaml", PLAIN_LHS, "2021-02-03: from the right\n", ["-D", "json"], "out.yaml"),
+    ("unrep-single-input", "l.yaml", DATEKEY, None, ["-D", "json"], "out.yaml"),
+]
+UNREP_PATTERN = r"keys must be str|TypeError|not JSON serializable"
 
 
 def _enc(plain, block=False):
@@ -223,6 +244,22 @@ def scenarios(ctx, rng):
                             "files": files, "target": "l.yaml",
                             "argv": ["yaml-merge", "-S"] + extra + (["-b"] if bak else []) +
                             ["-w", "{d}/l.yaml", "{d}/l.yaml"] + rargs, "cause": cause, "pattern": pat})
+        for label, lname, ltext, rtext, extra, oname in UNREP:
+            files = {lname: ltext}
+            ins = ["{d}/" + lname]
+            if rtext is not None:
+                rname = "r" + os.path.splitext(lname)[1]
+                files[rname] = rtext
+                ins.append("{d}/" + rname)
+            out.append({"tool": "merge_out", "o": _opts("merge_out", False, stale), "doc": "cause:" + label,
+                        "files": files, "target": lname, "output": oname,
+                        "argv": ["yaml-merge", "-S"] + extra + ["-o", "{d}/" + oname] + ins,
+                        "cause": "unrepresentable", "pattern": UNREP_PATTERN})
+            for bak in B:
+                out.append({"tool": "merge_ow", "o": _opts("merge_ow", bak, stale), "doc": "cause:" + label,
+                            "files": files, "target": lname,
+                            "argv": ["yaml-merge", "-S"] + extra + (["-b"] if bak else []) + ["-w", "{d}/" + lname] + ins,
+                            "cause": "unrepresentable", "pattern": UNREP_PATTERN})
     for bak in B:
         for stale in B:
             bflag = ["-b"] if bak else []
@@ -318,6 +355,11 @@ def judge(sc, run):
             what.append("directory-changed")
         if f["others_changed"]:
             what.append("input-changed")
+        # order sensitivity: also after every intercepted call of the failing run
+        if not what and not all(st["t"] for st in f["steps"]):
+            what.append("target-touched-during-run")
+        if not what and not all(st["o_kept"] for st in f["steps"]):
+            what.append("output-touched-during-run")
         for w in what[:1]:
             out.append(("prewrite:%s:%s:%s" % (tool, sc["cause"], w),
                         "%s [%s] failing for '%s' (status %s): %s; new files %s" %
@@ -618,7 +660,8 @@ def strace_layer(ctx, scs, pool):
     """Every syscall of the save sequence on the three paths fails in turn (ENOSPC / EIO)."""
     pick = [sc for sc in scs if sc["doc"] in ("map", "anchors", "large", "flowroot", "dotjson", "maps", "json", "multidoc", "single",
                                               "string", "anchored", "nosecret", "cause:check", "cause:unmatched",
-                                              "cause:hash-into-list", "cause:anchor-stop", "cause:parse-error", "cause:bad-rhs")]
+                                              "cause:hash-into-list", "cause:anchor-stop", "cause:parse-error", "cause:bad-rhs",
+                                              "cause:unrep-datekey-Djson", "cause:unrep-seqkey-flowinput", "cause:unrep-from-rhs")]
     scratch = ctx.path("strace")
     base = list(pool.imap_unordered(_strace_run, [(sc, None, scratch, None) for sc in pick], chunksize=1))
     byid = {sc["id"]: sc for sc in pick}
@@ -699,7 +742,10 @@ def run(ctx):
         raise core.MachineryError("MC_YSave: actions never fired: %s (%d actions parsed)" % (idle, len(actions)))
     defects = {}
     for cfg, inv in (("MC_YSave_late.cfg", "InvSingleFaultSafety"), ("MC_YSave_nocheck.cfg", "InvOutputNeverReplaces"),
-                     ("MC_YSave_valafter.cfg", "InvPreWriteFailureLeavesNoTrace")):
+                     ("MC_YSave_valafter.cfg", "InvPreWriteFailureLeavesNoTrace"),
+                     # the order of yaml_merge.py:291-307 as pinned (backup, then prepare_for_dump): a design-level
+                     # prediction; it becomes a verdict only through the byte-level facts of the real runs below
+                     ("MC_YSave_pinned.cfg", "InvPreWriteFailureLeavesNoTrace")):
         r = core.run_tlc(ctx, "MC_YSave", cfg, env={"CASES_OUT": os.devnull}, workers=1)
         defects[cfg] = r["violated"]
         if r["violated"] != inv:
@@ -754,11 +800,20 @@ def run(ctx):
 
     # ---- C->S: every recorded trace is folded through SStep by TLC
     drift = []
+    inv_on_traces = {}
+    rejected_inv = set()
     for a in range(0, len(recs), 3000):
         part = recs[a:a + 3000]
         ver = validate(ctx, [{k: r[k] for k in ("id", "o", "tr", "fs", "code")} for r in part], "trace_%d" % a)
         for r, v in zip(part, ver):
-            if not v["ok"]:
+            if not v["ok"] and v["why"].startswith("inv:"):
+                # a behaviour of the (mirrored) model that breaks a YSave predicate: the model's prediction confirmed
+                # on the code; the alarm itself comes from judge() on the bytes
+                sc = byid[r["sid"]]
+                rejected_inv.add(r["id"])
+                key = "%s %s: %s" % (sc["tool"], sc["cause"] or "fault", v["why"][4:])
+                inv_on_traces[key] = inv_on_traces.get(key, 0) + 1
+            elif not v["ok"]:
                 sc = byid[r["sid"]]
                 drift.append({"rid": r["id"], "scenario": "%s/%s %s" % (sc["tool"], sc["doc"], okey(sc["o"])), "fault": results[r["sid"]][r["run"]]["fault"],
                               "why": v["why"], "at": v["at"], "pc": v["pc"], "spec_would_accept": v["enabled"],
@@ -767,7 +822,7 @@ def run(ctx):
         with open(ctx.path("model_drift.json"), "w") as fh:
             json.dump(drift, fh, indent=1)
         print("note: %d recorded traces are not behaviours of YSave (model drift, not a verdict): %s" % (len(drift), ctx.path("model_drift.json")))
-    rejected = {d["rid"] for d in drift}
+    rejected = {d["rid"] for d in drift} | rejected_inv
     good = [r for r in recs if r["id"] not in rejected]
     # corrupt a trace recorded from the code; when the code under test no longer produces an accepted complete
     # yaml-set --backup trace, fall back to the same behaviour as emitted by TLC
@@ -811,6 +866,7 @@ def run(ctx):
         "traces_validated_against_impl": len(recs),
         "model_drift": len(drift),
         "drift_samples": drift[:3],
+        "invariants_broken_on_recorded_traces": inv_on_traces,
         "model_behaviours": n_model,
         "model_behaviours_realised_by_code": n_model - n_unreal,
         "unrealised_model_behaviours": {k: v[:3] for k, v in list(unrealised.items())[:5]},
